@@ -76,6 +76,7 @@ func checkC18(cx *Ctx, r *Report) {
 		return n != nil && n.Obj().Pkg() != nil && isXMLModelPkg(n.Obj().Pkg())
 	}
 	nEnc := 0
+	encKinds := map[string]bool{}
 	for _, fn := range w.sortedFuncs(scope) {
 		for _, c := range callsIn(fn) {
 			var arg ssa.Value
@@ -96,14 +97,32 @@ func checkC18(cx *Ctx, r *Report) {
 			nEnc++
 			key := "encode@" + w.FuncKey(fn) + ":" + w.InstrPos(c)
 			if mi, ok := arg.(*ssa.MakeInterface); ok {
+				encKinds[typeKey(mi.X.Type())] = true
 				r.Check(isWire(mi.X.Type()), "R-TYPED", key, w.InstrPos(c), "encodes "+typeKey(mi.X.Type()), "a value of type "+mi.X.Type().String()+" (not one of the module's wire structs) is handed to the XML encoder")
+			} else if prm, isP := arg.(*ssa.Parameter); isP && len(fx.argsOf[prm]) > 0 {
+				// an interface-typed parameter of a helper: every caller hands over a wire struct
+				bad := ""
+				var kinds []string
+				for _, a := range fx.argsOf[prm] {
+					mi, isMI := a.(*ssa.MakeInterface)
+					if !isMI || !isWire(mi.X.Type()) {
+						bad = "a caller of " + w.FuncKey(fn) + " hands something to the XML encoder that is not one of the module's wire structs (" + fx.path(a) + ")"
+					} else {
+						kinds = append(kinds, typeKey(mi.X.Type()))
+						encKinds[typeKey(mi.X.Type())] = true
+					}
+				}
+				r.Check(bad == "", "R-TYPED", key, w.InstrPos(c), "encodes "+strings.Join(kinds, " / ")+" (handed in by the callers)", bad)
 			} else {
 				r.Undecided("R-TYPED", key, w.InstrPos(c), "the encoded value's static type is not visible")
 			}
 		}
 	}
-	if nEnc < 5 {
-		r.Fail("R-TYPED", "#encode-sites", "", fmt.Sprintf("only %d encoder call sites found in handler-reachable code", nEnc))
+	// (what is counted is the kinds of message that reach the encoder: sites may be shared by several kinds)
+	if len(encKinds) < 4 {
+		r.Fail("R-TYPED", "#encode-sites", "", fmt.Sprintf("only %d kinds of message reach the XML encoder in handler-reachable code (%d sites): response, logout response, SOAP envelope and metadata are expected", len(encKinds), nEnc))
+	} else {
+		r.Ok("R-TYPED", "#encode-sites", "", fmt.Sprintf("%d kinds of message at %d encoder call sites", len(encKinds), nEnc))
 	}
 	// --- no reply by string formatting ------------------------------------------------------------------
 	hdr := "<?xml version=\"1.0\" encoding=\"UTF-8\"?>\n"
